@@ -168,6 +168,10 @@ class MenuConfigState:
         if not parent:
             parent = self.kconf.top_node
         self.shown = self.shown_nodes(parent)
+        if self.cur_menu not in self.shown:
+            # The menu we are leaving is not visible (any more): show it the way jump_to() does
+            self.show_all = True
+            self.shown = self.shown_nodes(parent)
         self.sel_node_i = self.shown.index(self.cur_menu)
         self.cur_menu = parent
 
